@@ -46,5 +46,9 @@ def replay(ctx, cx, h=None):
     nev = dv('NEV', 2); mode = dv('MODE', 0); op = dv('OP', 0); steps = 1 if mode == 1 else dv('STEPS', 3)
     def lst(k, n): v = c.get(k, []); v = v if isinstance(v, list) else []; return [str(int(x)) for x in (v + [0] * n)[:n]]
     args = [str(mode), str(op), str(nev), str(steps), str(int(c.get('cx_clear_at', -1)))] + lst('cx_ms', 3) + lst('cx_rep', 3) + lst('cx_res', steps + 1) + lst('cx_read', steps + nev + 2)
-    r = sh([exe] + args, env=dict(os.environ, ASAN_OPTIONS='detect_leaks=0'))
-    return r.returncode not in (0, 2), (r.stdout or '').strip()[-400:].replace('\n', ' | ')
+    env = dict(os.environ, ASAN_OPTIONS='detect_leaks=0')
+    r = sh([exe] + args, env=env)
+    if r.returncode not in (0, 2): return True, (r.stdout or '').strip()[-400:].replace('\n', ' | ')
+    # the scripted single-thread replay is clean: try the two-thread demonstration of the critical-section premise
+    r2 = sh([exe, 'conc'], env=env)
+    return r2.returncode == 1, ((r.stdout or '').strip()[-200:] + ' | ' + (r2.stdout or '').strip()[-200:]).replace('\n', ' | ')
